@@ -72,35 +72,33 @@ def oracle(case, lines, insts):
     ov = case['override']
     now = 0
     last_cf = None
-    # separation times the sender may legitimately be using: every valid ContinueToSend fed so far since the last CF;
-    # the gap must be at least the smallest of {the most recent one accepted before the CF}. We check against the minimum over the
-    # ContinueToSend frames fed since the previous CF plus the one in force before (sound lower bound).
-    in_force = None
-    fed = []
+    # Flow Controls are consumed from the reception source in order; ProcessStats.received of each process() call says how many
+    # were read during that call.  The separation time in force for a Consecutive Frame is that of one of the Flow Controls in
+    # force during the call that emitted it: the last one consumed before the call, or any consumed during it.
+    hist = []
+    consumed = 0
     for op, l in zip(case['ops'], lines):
         evs, st = split_line(l)
         if op[1] == 'tick':
             now += int(op[2])
         elif op[1] == 'rx':
             d = unhx(op[4])[len(pfx):]
-            if len(d) >= 3 and d[0] == 0x30:
-                fed.append(sec_to_ns(ov) if ov is not None else st_ns(d[2]))
+            hist.append(sec_to_ns(ov) if ov is not None else st_ns(d[2]))
+        before = consumed
+        for e in evs:
+            if e.startswith('stats:'):
+                consumed += int(e[6:].split(',')[0])
         for e in evs:
             if e.startswith('tx:'):
                 d = unhx(e.split(':')[6])
                 t = d[tplen] >> 4
                 if t == 1:
                     last_cf = None
-                    in_force = None
-                    fed = []
                 elif t == 2:
-                    cands = ([in_force] if in_force is not None else []) + fed
+                    cands = hist[max(0, before - 1):consumed]
                     need = min(cands) if cands else 0
                     if last_cf is not None and now - last_cf < need:
                         fails.append(('C08:stmin-not-respected', 'consecutive frames %d ns apart, separation time requested >= %d ns' % (now - last_cf, need)))
-                    if fed:
-                        in_force = fed[-1]
-                        fed = []
                     last_cf = now
     done = [e for l in lines for e in split_line(l)[0] if e.startswith('done:')]
     if done != ['done:0:1']:
